@@ -263,3 +263,16 @@ def add_nan_library(rnd, cfg, base_idx=0, p=0.25):
     lib["overrides"] = [[row, "M0", "nan"]]
     cfg["libraries"].append(lib)
     return len(cfg["libraries"]) - 1
+
+
+def add_neg_inf_profile(rnd, cfg, lib_idx=0, p=0.15):
+    """With probability p force -inf likelihood on 1..3 rows of a library (kernel-output stub)."""
+    if rnd.random() >= p:
+        return False
+    n = cfg["libraries"][lib_idx]["n"]
+    if n < 2:
+        return False
+    k = rnd.randint(1, min(3, n - 1))
+    rows = sorted(rnd.sample(range(n), k))
+    cfg.setdefault("ll_override", {})[str(lib_idx)] = {"rows": rows, "value": "-inf"}
+    return True
